@@ -55,6 +55,8 @@ def gen_layers(rng, p):
         hooks = [h for h in HOOKS if rng.random() < p['p_hook']]
         name = family[i] if family and i < len(family) else 'L%d' % i
         layers.append({'name': name, 'kind': kind, 'bases': bases, 'hooks': hooks})
+        if kind == 'inst' and rng.random() < p.get('p_falsy_layer', 0.12):
+            layers[-1]['falsy'] = True
     if rng.random() < p.get('p_zz_module', 0.1):
         # some layers live in a module whose dotted names sort after the unit-test layer's
         for L in layers:
